@@ -197,6 +197,22 @@ def correspond(ctx, corr):
         "sampled otherwise) x instance bytes (all 256 on sampled addresses); events x 5 schemes x field and data "
         "values; malformed stream (-1, max+1, 1.5, None, 'x', wrong-kind address, wrong arity) at every argument "
         "position. non-trivial = distinct (family, outcome class)")
+    # an application that has made mistakes before: calls that FAIL (decoding something that is not a forward frame,
+    # constructing with bad arguments) come first, so that every acceptance / rejection below is judged in a process
+    # with that history - what is rejected does not depend on earlier failures  (after seeded round 7)
+    from dali import frame as _fr
+    nfail = 0
+    for bad in (lambda: command.from_frame(_fr.Frame(16, 0x01E0)), lambda: command.from_frame(_fr.BackwardFrame(5)),
+                lambda: command.from_frame(None), lambda: command.from_frame("c1 06"),
+                lambda: command.from_frame(_fr.Frame(24, 0x01FE30)), lambda: gg.GoToScene(A.GearShort(1), 16),
+                lambda: gg.DAPC(A.GearShort(1), 256), lambda: gg.Off(A.DeviceShort(1)), lambda: gg.DTR0(256),
+                lambda: dg.IdentifyDevice(A.GearShort(1)), lambda: command.from_frame(_fr.ForwardFrame(16, 5), devicetype="x"),
+                lambda: command.from_frame(_fr.ForwardFrame(24, 0x028005), dev_inst_map=object())):
+        try:
+            bad()
+        except Exception:   # noqa
+            nfail += 1
+    corr.bump("failing calls made before the sweep", nfail)
     classes = sorted(__import__('gen._registry', fromlist=['x']).all_commands()[0], key=qn)
     fam_count = {}
     for c in classes:
